@@ -773,7 +773,10 @@ namespace awkward {
 
   const FormPtr
   NumpyArray::form(bool materialize) const {
-    std::vector<int64_t> inner_shape(std::next(shape_.begin()), shape_.end());
+    std::vector<int64_t> inner_shape;
+    if (!shape_.empty()) {
+      inner_shape.insert(inner_shape.end(), std::next(shape_.begin()), shape_.end());
+    }
     return std::make_shared<NumpyForm>(identities_.get() != nullptr,
                                        parameters_,
                                        FormKey(nullptr),
@@ -1178,6 +1181,7 @@ namespace awkward {
   void
   NumpyArray::check_for_iteration() const {
     if (identities_.get() != nullptr  &&
+        !shape_.empty()  &&
         identities_.get()->length() < shape_[0]) {
       util::handle_error(
         failure("len(identities) < len(array)",
